@@ -274,6 +274,7 @@ def make_program(rnd):
     variant = gen.Variant([sorted(f, key=lambda n: pos[n]) for f in variant.order])
     files = gen.render(prog, variant)
     label = "G-valid"
+    needs_core = "use_core" in prog.features
     if r > 0.72:
         # one to three seeded mutations; with several files they tend to land in different ones,
         # so that diagnostics of more than one file have to come out in a stable order
@@ -282,7 +283,7 @@ def make_program(rnd):
             files, kind = break_program(rnd, files)
             kinds.append(kind)
         label = "G-invalid:" + "+".join(sorted(set(kinds)))
-    return files, "main.capy", label, False
+    return files, "main.capy", label, needs_core
 
 
 def permute_imports(rnd, text):
